@@ -130,7 +130,7 @@ class Ctx(object):
                 d['observed'] = jsonable(observed)
             if note:
                 d['note'] = note
-            if self.ambient and (self.ambient.get('hashseed') != '0' or self.ambient.get('cwd') != VERIF or self.ambient.get('optimize')):
+            if self.ambient and (self.ambient.get('hashseed') != '0' or self.ambient.get('cwd') != VERIF or self.ambient.get('optimize') or self.ambient.get('warnings')):
                 d['ambient'] = self.ambient
             w.append(d)
         if self.replay:
